@@ -272,13 +272,14 @@ impl DiskDevices {
         result
     }
 
-    /// Returns the mount point holding given path
-    pub fn get_mount_point(&self, path: &Path) -> &Path {
+    /// Returns the mount point holding given path, or `None` if the path is not under any
+    /// of the known mount points (the list of them can be empty, e.g. on a system that
+    /// runs from a RAM disk).
+    pub fn get_mount_point(&self, path: &Path) -> Option<&Path> {
         self.mount_points
             .iter()
             .map(|(p, _)| p)
             .find(|p| p.is_prefix_of(path))
-            .unwrap_or(&self.mount_points[0].0)
     }
 
     /// Returns the disk device which holds the given path
